@@ -243,6 +243,10 @@ class LibsModel:
             return AV(ty='opcaller', kind='item', key=args[0], deps=d)
         if qual == 'functools.partial' and args:
             return AV(ty='partial', target=args[0], pargs=list(args[1:]), pkwargs=dict(kwargs), deps=d)
+        if qual == 'functools.update_wrapper' and args:
+            return args[0]  # copies metadata onto the wrapper and returns it
+        if qual in ('functools.lru_cache', 'functools.cache') and len(args) == 1 and not kwargs and args[0].ty in ('func', 'lambda', 'partial', 'symfunc'):
+            return AV(ty='lru_cached', target=args[0], deco_args=[], deps=d)  # bare @lru_cache
         if qual.startswith('functools.'):
             return AV(ty='decorator', qual=qual, args=args)
         if qual == 're.compile':
